@@ -382,6 +382,8 @@ def verify(contract, target, make_engine, seed=0, timeout_ms=10000, both=False, 
     res.time_s = round(time.time() - t0, 3)
     res.stats = dict(eng.stats)
     res.stats.update(getattr(res, 'stats_phases', {}))
+    if getattr(res, 'cvc5_cross', None):
+        res.stats['cvc5_cross'] = res.cvc5_cross
     return res
 
 
@@ -585,7 +587,11 @@ def _verify_body(eng, contract, target, mod, cname, node, res, seed, timeout_ms,
             goals = [g for g in goals if not z3.is_true(g)]
             if not goals:
                 continue
-            r = smt.prove(hyps, z3.And(*goals), timeout_ms=timeout_ms, seed=seed, quick_only=True)
+            import zlib as _zl
+            sample = both and _zl.crc32(repr(bkey).encode()) % 4 == 0        # thorough tier: every fourth bundle is re-proved by cvc5
+            r = smt.prove(hyps, z3.And(*goals), timeout_ms=timeout_ms, seed=seed, quick_only=True, both=sample)
+            if 'cvc5' in r:
+                out.append(['#cvc5:%s:%s' % (r['cvc5'], members[0][0]), -1])
             if r['status'] == 'proved':
                 out += [[n, i] for n, i in members]
             else:
@@ -593,9 +599,16 @@ def _verify_body(eng, contract, target, mod, cname, node, res, seed, timeout_ms,
         return out
 
     pre_proved = set()
+    cvc5_cross = {}
     _t_p1 = time.time()
     for part in _fork_map(phase1, _chunks(list(bundles.keys()), nworkers)):
         for n, i in part:
+            if isinstance(n, str) and n.startswith('#cvc5:'):
+                _, verdict, oname = n.split(':', 2)
+                cvc5_cross[verdict] = cvc5_cross.get(verdict, 0) + 1
+                if verdict == 'sat':
+                    cvc5_cross.setdefault('disagreements', []).append(oname)
+                continue
             pre_proved.add((n, i))
 
     SLICE = 24
@@ -721,6 +734,7 @@ def _verify_body(eng, contract, target, mod, cname, node, res, seed, timeout_ms,
         m['backend'] = '+'.join(sorted(set(m['backend'].split('+')) | set(o['backend'].split('+')) - {'none'})) or m['backend']
     got = sorted(merged.values(), key=lambda o: order[o['name']])
     res.obligations += got
+    res.cvc5_cross = cvc5_cross
     res.stats_phases = {'exec+build_s': round(_t_build - _t0, 1), 'bundles_s': round(_t_p2 - _t_p1, 1), 'rest_s': round(time.time() - _t_p2, 1),
                         'queries': nqueries, 'workers': nworkers}
     res.feasible_paths = len(outs)
